@@ -342,7 +342,9 @@ def rule_nothing_deleted_below_the_core(repo: Repo, rep, rule: str = "R11.8") ->
 
 
 def run(repo: Repo, rep: Report, tier: str) -> None:
-    rule_nothing_deleted_below_the_core(repo, rep, "R11.8")
+    from sa.report import guarded as _guarded
+
+    _guarded(rep, rule_nothing_deleted_below_the_core, repo, rep, "R11.8")
     mod = repo.module(EE)
     cls = mod.classes.get("ExceptionsEmitter")
     if cls is None:
@@ -617,12 +619,12 @@ def run(repo: Repo, rep: Report, tier: str) -> None:
             else:
                 rep.ok("R11.2", subk, "predicate is true for every client depth 1..3", anchor_fn.loc())
 
-    rule_cleanup_keeps_registry(repo, rep, "R11.5")
-    rule_registry_file_name_agrees(repo, rep, "R11.6")
+    _guarded(rep, rule_cleanup_keeps_registry, repo, rep, "R11.5")
+    _guarded(rep, rule_registry_file_name_agrees, repo, rep, "R11.6")
     # R11.7: the client package's __init__.py (which is the core's own __init__.py when core and client package coincide) is written as lines  [= R1.20]
     from rules.c01 import rule_lines_joined_with_newline
 
-    rule_lines_joined_with_newline(repo, rep, "R11.7")
+    _guarded(rep, rule_lines_joined_with_newline, repo, rep, "R11.7")
     # ---------------------------------------------------------------- R11.3 additive
     for spec in (f"{EE}:ExceptionsEmitter.emit", f"{EE}:ExceptionsEmitter._update_registry", "emitters.core_emitter:CoreEmitter.emit"):
         fn = repo.func(spec)
